@@ -28,6 +28,8 @@ type xVal struct {
 	Node *xNode  `json:"n,omitempty"`
 	Code int     `json:"code,omitempty"`
 	Safe bool    `json:"safe,omitempty"`
+	// NNull: a nil returned by a resolver that is marked NonNullable (thunder turns it into an error)
+	NNull bool `json:"nnull,omitempty"`
 }
 
 type xNode struct {
@@ -284,12 +286,16 @@ func init() {
 	addField("A", "a2Xp", "a2", "A", "expensive", 0)
 	addField("A", "yEx", "y", "sc", "external", 0)
 	addField("A", "bvEx", "bv", "BsV", "external", 0)
+	addField("A", "cEx", "x", "sc", "external", 0) // B.cEx is an object: same name, different type
 	// B
 	for _, m := range xModes[:4] {
 		addField("B", "p"+m.suffix, "p", "sc", m.mode, m.par)
 		addField("B", "a"+m.suffix, "a", "A", m.mode, m.par)
 	}
 	addField("B", "qEx", "q", "sc", "external", 0)
+	addField("B", "cEx", "a", "A", "external", 0)
+	// a pointer-returning batch resolver marked NonNullable: a nil entry is an error, never null
+	addField("B", "qNn", "qn", "scN", "batch", 0)
 	// batch resolvers without a result map (error only): every source resolves to `true`
 	addField("B", "okBa", "ok", "tr", "batch", 0)
 	addField("B", "okBf", "ok", "tr", "fallback", 0)
@@ -406,6 +412,24 @@ func registerField(obj *schemabuilder.Object, f *xField) {
 			return out, batchEach(in, func(i batch.Index, s interface{}) error { v, e := asScalar(get(nodeOf(s), src)); out[i] = v; return e })
 		}
 		regOne(obj, f, batchy, one, many, opts)
+	case "B:scN":
+		many := func(ctx context.Context, in map[batch.Index]*XB) (map[batch.Index]*int64, error) {
+			out := map[batch.Index]*int64{}
+			return out, batchEach(in, func(i batch.Index, s interface{}) error {
+				v := get(nodeOf(s), src)
+				if v.Kind == "fail" {
+					return xErr(v)
+				}
+				if v.Kind == "null" {
+					out[i] = nil
+					return nil
+				}
+				x := v.Sc
+				out[i] = &x
+				return nil
+			})
+		}
+		obj.BatchFieldFunc(f.Name, many, schemabuilder.NonNullable)
 	case "B:tr":
 		one := func(ctx context.Context, b *XB) error { _, e := asScalar(get(b.N, src)); return e }
 		many := func(ctx context.Context, in map[batch.Index]*XB) error {
@@ -564,7 +588,7 @@ type xRootKey struct{}
 
 func xTyEnc(ty string) interface{} {
 	switch ty {
-	case "sc", "tr":
+	case "sc", "tr", "scN":
 		return map[string]interface{}{"nn": "scalar"}
 	case "ints":
 		return map[string]interface{}{"nn": map[string]interface{}{"list": map[string]interface{}{"nn": "scalar"}}}
@@ -631,6 +655,11 @@ func xValEnc(v *xVal) interface{} {
 		return xNodeEnc(v.Node)
 	case "fail":
 		return map[string]interface{}{"fail": []interface{}{v.Code, v.Safe}}
+	case "null":
+		if v.NNull {
+			// the executor reports "marked non-nullable but returned a null value": a failing resolver
+			return map[string]interface{}{"fail": []interface{}{777777, false}}
+		}
 	}
 	return nil
 }
@@ -660,6 +689,7 @@ type xGen struct {
 	r        *Rand
 	nextID   int64
 	failProb float64
+	nnNulls  bool // let NonNullable pointer resolvers return nil (C14 only)
 	nextCode int
 }
 
@@ -673,6 +703,11 @@ func (g *xGen) val(ty string, depth int) *xVal {
 		return &xVal{Kind: "sc", Sc: int64(g.r.Intn(9))}
 	case "tr":
 		return &xVal{Kind: "sc", Sc: 1}
+	case "scN":
+		if g.nnNulls && g.r.Chance(0.25) {
+			return &xVal{Kind: "null", NNull: true}
+		}
+		return &xVal{Kind: "sc", Sc: int64(g.r.Intn(9))}
 	case "ints":
 		v := &xVal{Kind: "list"}
 		for i := g.r.Intn(4); i > 0; i-- {
@@ -826,6 +861,14 @@ func (g *xQGen) dirs() xDirs {
 	return d
 }
 
+// typenameAlias: __typename under its own name or under an alias
+func (g *xQGen) typenameAlias() string {
+	if g.r.Chance(0.4) {
+		return "tn"
+	}
+	return "__typename"
+}
+
 func (g *xQGen) aliasFor(name string) string {
 	return name
 }
@@ -834,7 +877,7 @@ func (g *xQGen) selSet(typ string, depth int) *xSelSet {
 	ss := &xSelSet{}
 	if typ == "U" {
 		if g.r.Chance(0.4) {
-			ss.Sels = append(ss.Sels, &xSel{Alias: "__typename"})
+			ss.Sels = append(ss.Sels, &xSel{Alias: g.typenameAlias()})
 		}
 		n := 1 + g.r.Intn(3)
 		for i := 0; i < n; i++ {
@@ -848,7 +891,7 @@ func (g *xQGen) selSet(typ string, depth int) *xSelSet {
 		// leaves only
 		var leaves []*xField
 		for _, f := range fields {
-			if f.Ty == "sc" || f.Ty == "ints" || f.Ty == "tr" {
+			if f.Ty == "sc" || f.Ty == "ints" || f.Ty == "tr" || f.Ty == "scN" {
 				leaves = append(leaves, f)
 			}
 		}
@@ -858,7 +901,7 @@ func (g *xQGen) selSet(typ string, depth int) *xSelSet {
 	used := map[string]*xField{}
 	for i := 0; i < n; i++ {
 		if g.r.Chance(0.08) && typ != "Q" {
-			ss.Sels = append(ss.Sels, &xSel{Alias: "__typename", Dirs: g.dirs()})
+			ss.Sels = append(ss.Sels, &xSel{Alias: g.typenameAlias(), Dirs: g.dirs()})
 			continue
 		}
 		f := fields[g.r.Intn(len(fields))]
